@@ -64,11 +64,10 @@ Definition run_cksum (v : val) : val :=
   let pe_start := vz (vnth 0 v) in
   let data := vb (vnth 1 v) in
   let scripts := map vzs (vl (vnth 2 v)) in
-  let P := if pe_start <=? 0 then -1 else pe_start + 88 in
   VL [VL (map (fun sc => let ds := cut sc data in
                          match ck_run pe_start ds with
-                         | Ok s => VL [VZ 0; VZ s; of_bool (ck_split_ok P ds)]
-                         | r => VL [VZ (status_code r); VZ 0; of_bool (ck_split_ok P ds)]
+                         | Ok s => VL [VZ 0; VZ s; of_bool (ck_split_ok ds)]
+                         | r => VL [VZ (status_code r); VZ 0; of_bool (ck_split_ok ds)]
                          end) scripts);
       VZ (spec_cksum pe_start data)].
 
